@@ -1,6 +1,7 @@
 package state
 
 import (
+	"errors"
 	"crypto/ecdsa"
 	"crypto/elliptic"
 	"crypto/rand"
@@ -20,6 +21,7 @@ import (
 	"github.com/xuperchain/xupercore/kernel/mock"
 	crypto_client "github.com/xuperchain/xupercore/lib/crypto/client"
 	"github.com/xuperchain/xupercore/lib/logs"
+	"github.com/xuperchain/xupercore/lib/storage/kvdb"
 	"github.com/xuperchain/xupercore/protos"
 )
 
@@ -226,5 +228,79 @@ func TestC05ReplayFailedBlockPlayTotal(t *testing.T) {
 	t.Logf("play failed: %v; total %s -> %s", perr, totalBefore, totalAfter)
 	if totalBefore.Cmp(totalAfter) != 0 {
 		t.Errorf("REPRODUCED[failed-play-total]: the block failed to play (%v) but the reported total supply moved from %s to %s", perr, totalBefore, totalAfter)
+	}
+}
+
+// ---- a batch whose Put of one key fails (injected storage write error) ----
+type c5FaultDB struct {
+	kvdb.Database
+	failKey string
+}
+type c5FaultBatch struct {
+	kvdb.Batch
+	failKey string
+}
+
+func (d *c5FaultDB) NewBatch() kvdb.Batch {
+	return &c5FaultBatch{Batch: d.Database.NewBatch(), failKey: d.failKey}
+}
+func (b *c5FaultBatch) Put(key []byte, value []byte) error {
+	if string(key) == b.failKey {
+		return errors.New("injected write error")
+	}
+	return b.Batch.Put(key, value)
+}
+
+// A miner's own block whose irreversible-height record cannot be queued: the play
+// reports failure, so the award it had already applied in memory (total supply,
+// cached balance, cached output) must not stay visible.
+func TestC05ReplayFailedMinerPlayIrreversibleUpdate(t *testing.T) {
+	st, done := c5NewState(t)
+	defer done()
+	// a finality window of one block, as a chain configured with irreversibleslidewindow = 1 has
+	st.meta.Meta.IrreversibleSlideWindow = 1
+	st.meta.MetaTmp.IrreversibleSlideWindow = 1
+	ledger := st.sctx.Ledger
+	minerKey, kerr := ecdsa.GenerateKey(elliptic.P256(), rand.Reader)
+	if kerr != nil {
+		t.Fatal(kerr)
+	}
+	mkBlock := func() *pb.InternalBlock {
+		award, err := txn.GenerateAwardTx(Users["bob"].Address, "1000", []byte("award"))
+		if err != nil {
+			t.Fatal(err)
+		}
+		tip, _ := ledger.QueryBlock(st.GetLatestBlockid())
+		block, err := ledger.FormatFakeBlock([]*pb.Transaction{award}, []byte("miner"), minerKey, time.Now().UnixNano(), 0, 0, st.GetLatestBlockid(), big.NewInt(0), tip.Height+1)
+		if err != nil {
+			t.Fatal(err)
+		}
+		if cs := ledger.ConfirmBlock(block, false); !cs.Succ {
+			t.Fatalf("confirm: %v", cs.Error)
+		}
+		return block
+	}
+	// height 1: plays normally (1 - window = 0 is not above the current irreversible height)
+	if err := st.PlayForMiner(mkBlock().Blockid); err != nil {
+		t.Fatalf("first miner block: %v", err)
+	}
+	totalBefore := new(big.Int).Set(st.GetTotal())
+	bobBefore, _ := st.GetBalance(Users["bob"].Address)
+	// height 2: the irreversible height moves to 1; queuing that record fails
+	realDB := st.ldb
+	st.ldb = &c5FaultDB{Database: realDB, failKey: pb.MetaTablePrefix + ledger_pkg.IrreversibleBlockHeightKey}
+	perr := st.PlayForMiner(mkBlock().Blockid)
+	st.ldb = realDB
+	if perr == nil {
+		t.Fatal("the play must fail: the irreversible-height record cannot be queued")
+	}
+	totalAfter := st.GetTotal()
+	bobAfter, _ := st.GetBalance(Users["bob"].Address)
+	t.Logf("play failed: %v; total %s -> %s, bob %s -> %s", perr, totalBefore, totalAfter, bobBefore, bobAfter)
+	if totalBefore.Cmp(totalAfter) != 0 {
+		t.Errorf("REPRODUCED[failed-miner-play]: the play failed (%v) but the reported total supply moved from %s to %s", perr, totalBefore, totalAfter)
+	}
+	if bobBefore.Cmp(bobAfter) != 0 {
+		t.Errorf("REPRODUCED[failed-miner-play]: the play failed (%v) but the miner's balance moved from %s to %s", perr, bobBefore, bobAfter)
 	}
 }
